@@ -5,6 +5,8 @@ import OxiddModel.Zbdd.Driver
 import OxiddModel.HashTbl.Driver
 import OxiddModel.Mtbdd.Driver
 import OxiddModel.Tdd.Driver
+import OxiddModel.Dddmp.Driver
+import OxiddModel.VarNames.Driver
 import OxiddModel.Circuit.Driver
 
 open OxiddModel
@@ -19,6 +21,8 @@ def protos : List (String × Proto) := [
   ("tbl", OxiddModel.HashTbl.proto),
   ("mtbdd", OxiddModel.Mtbdd.proto),
   ("tdd", OxiddModel.Tdd.proto),
+  ("dddmp", OxiddModel.Dddmp.proto),
+  ("names", OxiddModel.VarNames.proto),
   ("circ", OxiddModel.Circuit.proto)
 ]
 
